@@ -105,9 +105,12 @@ def build(scratch_root=None, models=None, shared_prelude=True):
     open(p, "w").write(t)
     shutil.copy(lock, os.path.join(ov, "bindings", "C", "Cargo.lock"))
 
+    # --- snapshot of the harness sources (a run is not disturbed by later edits under /verif)
+    hdir = os.path.join(ov, "harness")
+    shutil.copytree(os.path.join(VERIF, "harness"), hdir)
     # --- append harness modules to the real, unmodified source files
     for rel, name in APPEND.items():
-        hfile = os.path.join(VERIF, "harness", name + ".rs")
+        hfile = os.path.join(hdir, name + ".rs")
         if not os.path.isfile(hfile):
             continue
         dst = os.path.join(ov, rel)
@@ -123,7 +126,7 @@ def build(scratch_root=None, models=None, shared_prelude=True):
     src = open(lib).read()
     open(lib, "w").write("#![cfg_attr(kani, feature(allocator_api))]\n" + src)
     # shared helpers (abstract streams, cheap stubs) live in the crate root of mla
-    common = os.path.join(VERIF, "harness", "common.rs")
+    common = os.path.join(hdir, "common.rs")
     if shared_prelude and os.path.isfile(common):
         with open(os.path.join(ov, "mla", "src", "lib.rs"), "a") as f:
             f.write(f'\n#[cfg(kani)]\n#[path = "{common}"]\npub(crate) mod verif_common;\n')
